@@ -423,7 +423,9 @@ class _AdversarialFairness(BaseEstimator):
         """
         first_call = not hasattr(self, "classes_")
 
-        X, y, A = self._validate_input(X, y, sensitive_features, first_call)
+        X, y, A = self._validate_input(
+            X, y, sensitive_features, first_call or not self.warm_start
+        )
 
         # Not checked in __setup, because partial_fit may not require it.
         if self.epochs == -1 and self.max_iter == -1:
